@@ -378,4 +378,35 @@ Proof.
     discriminate R.
   - discriminate R.
 Qed.
+(* ---------- operands: any sequence that answers GetSize / IsEmpty / AsArray / GetIterator like [src] ---------- *)
+Definition seq_operand (sv : val A) (src : list A) : Prop :=
+  (un_wb A sv = (sv, []) /\ untag A sv = sv) /\
+  forall F, 40 <= F ->
+    call_at F sv id_GetSize [] = ROk (VInt (Z.of_nat (length src)), sv) /\
+    call_at F sv id_IsEmpty [] = ROk (VBool (length src =? 0), sv) /\
+    call_at F sv id_AsArray [] = ROk (VSlice (elems src), sv) /\
+    call_at F sv id_GetIterator [] = ROk (it_rep VNil (it_make src), sv).
+
+Lemma seq_operand_arr src : (Z.of_nat (length src) < two63)%Z -> seq_operand (arr_val src) src.
+Proof.
+  intros HL. split; [split; reflexivity|]. intros F HF. rewrite gen_array_GetSize, gen_array_IsEmpty,
+    gen_array_AsArray, gen_array_GetIterator by (assumption || lia). repeat split.
+Qed.
+Lemma seq_operand_lst n src : (Z.of_nat (length src) < two63)%Z -> seq_operand (lst_val n src) src.
+Proof.
+  intros HL. split; [split; reflexivity|]. intros F HF. rewrite gen_list_GetSize, gen_list_IsEmpty,
+    gen_list_AsArray, gen_list_GetIterator by (assumption || lia). repeat split.
+Qed.
+
 End GenSeq.
+
+(* rewrite the call of GetSize / IsEmpty / AsArray / GetIterator on an operand that is in head position *)
+Ltac op_size OP := rewrite ?(proj2 (proj1 OP)); match goal with |- context[i_call (interp_at _ _ _ _ ?FF) ?sv id_GetSize []] =>
+  rewrite (proj1 (proj2 OP FF ltac:(lia))) end; rewrite ?(proj1 (proj1 OP)).
+Ltac op_empty OP := rewrite ?(proj2 (proj1 OP)); match goal with |- context[i_call (interp_at _ _ _ _ ?FF) ?sv id_IsEmpty []] =>
+  rewrite (proj1 (proj2 (proj2 OP FF ltac:(lia)))) end; rewrite ?(proj1 (proj1 OP)).
+Ltac op_array OP := rewrite ?(proj2 (proj1 OP)); match goal with |- context[i_call (interp_at _ _ _ _ ?FF) ?sv id_AsArray []] =>
+  rewrite (proj1 (proj2 (proj2 (proj2 OP FF ltac:(lia))))) end; rewrite ?(proj1 (proj1 OP)).
+Ltac op_iter OP := rewrite ?(proj2 (proj1 OP)); match goal with |- context[i_call (interp_at _ _ _ _ ?FF) ?sv id_GetIterator []] =>
+  rewrite (proj2 (proj2 (proj2 (proj2 OP FF ltac:(lia))))) end; rewrite ?(proj1 (proj1 OP)).
+
